@@ -94,6 +94,9 @@ func ParseAllPAIValues(buf []byte, offs int, c *PPAIs) (int, ErrorHdr) {
 		case 0, ErrHdrMoreValues:
 			if c.N == 0 {
 				c.LastHVal = pf.V
+			} else if c.LastHVal.Offs == 0 && c.LastHVal.Len == 0 {
+				// first value of a new PAI header
+				c.LastHVal = pf.V
 			} else {
 				c.LastHVal.Extend(int(pf.V.Offs + pf.V.Len))
 			}
